@@ -657,24 +657,52 @@ func initLib() {
 		pk, okp := litValue(prec)
 		mk_, okm := litValue(mode)
 		ap, ar := absReal(exact.S), absReal(r.S)
+		sign := fmt.Sprintf("(and (=> (= %s 0.0) (= %s 0.0)) (=> (> %s 0.0) (> %s 0.0)) (=> (< %s 0.0) (< %s 0.0)))", exact.S, r.S, exact.S, r.S, exact.S, r.S)
+		envFor := func(pk int64, mode int64) string {
+			var env string
+			switch mode {
+			case 0, 1:
+				env = fmt.Sprintf("(and (<= (* %s (- 1.0 %s)) %s) (<= %s (* %s (+ 1.0 %s))))", ap, pow2neg(pk), ar, ar, ap, pow2neg(pk))
+			case 2:
+				env = fmt.Sprintf("(and (<= (* %s (- 1.0 %s)) %s) (<= %s %s))", ap, pow2neg(pk-1), ar, ar, ap)
+			case 3:
+				env = fmt.Sprintf("(and (<= %s %s) (<= %s (* %s (+ 1.0 %s))))", ap, ar, ar, ap, pow2neg(pk-1))
+			default:
+				env = fmt.Sprintf("(and (<= (* %s (- 1.0 %s)) %s) (<= %s (* %s (+ 1.0 %s))))", ap, pow2neg(pk-1), ar, ar, ap, pow2neg(pk-1))
+			}
+			// an integer of magnitude below 2^prec is representable with prec mantissa bits: no rounding happens
+			two := new(bigInt).Lsh(newBig(1), uint(pk)).String()
+			exactIf := fmt.Sprintf("(=> (and (is_int %s) (< %s %s.0)) (= %s %s))", exact.S, ap, two, r.S, exact.S)
+			return "(and " + env + " " + sign + " " + exactIf + ")"
+		}
 		if !okp || !okm || pk <= 0 || pk > 4096 {
-			// unknown precision or mode: only sign preservation is known
+			// the precision is not a literal here (it travels through the per-object precision map): sign
+			// preservation always, and the envelope under each of the precisions the code base uses
 			vc.assume(st, mk(fmt.Sprintf("(and (=> (= %s 0.0) (= %s 0.0)) (=> (> %s 0.0) (>= %s 0.0)) (=> (< %s 0.0) (<= %s 0.0)))", exact.S, r.S, exact.S, r.S, exact.S, r.S), sortBool))
+			if prec.T != nil && prec.T.K == SInt {
+				cands := []int64{24, 53, 64, 128, 256, 512}
+				if okp && pk > 0 && pk <= 4096 {
+					cands = []int64{pk}
+				}
+				for _, cand := range cands {
+					for _, m := range []int64{0, 1, 2, 3, 4, 5} {
+						if okm && m != mk_ {
+							continue
+						}
+						guard := fmt.Sprintf("(= %s %d)", prec.S, cand)
+						if !okm {
+							if mode.T == nil || mode.T.K != SInt {
+								continue
+							}
+							guard = fmt.Sprintf("(and %s (= %s %d))", guard, mode.S, m)
+						}
+						vc.assume(st, mk(fmt.Sprintf("(=> %s %s)", guard, envFor(cand, m)), sortBool))
+					}
+				}
+			}
 			return r
 		}
-		var env string
-		switch mk_ {
-		case 0, 1:
-			env = fmt.Sprintf("(and (<= (* %s (- 1.0 %s)) %s) (<= %s (* %s (+ 1.0 %s))))", ap, pow2neg(pk), ar, ar, ap, pow2neg(pk))
-		case 2:
-			env = fmt.Sprintf("(and (<= (* %s (- 1.0 %s)) %s) (<= %s %s))", ap, pow2neg(pk-1), ar, ar, ap)
-		case 3:
-			env = fmt.Sprintf("(and (<= %s %s) (<= %s (* %s (+ 1.0 %s))))", ap, ar, ar, ap, pow2neg(pk-1))
-		default:
-			env = fmt.Sprintf("(and (<= (* %s (- 1.0 %s)) %s) (<= %s (* %s (+ 1.0 %s))))", ap, pow2neg(pk-1), ar, ar, ap, pow2neg(pk-1))
-		}
-		sign := fmt.Sprintf("(and (=> (= %s 0.0) (= %s 0.0)) (=> (> %s 0.0) (> %s 0.0)) (=> (< %s 0.0) (< %s 0.0)))", exact.S, r.S, exact.S, r.S, exact.S, r.S)
-		vc.assume(st, mk("(and "+env+" "+sign+")", sortBool))
+		vc.assume(st, mk(envFor(pk, mk_), sortBool))
 		return r
 	}
 	// big.ParseFloat(s, base, prec, mode): the decimal value of s (uninterpreted dec-val) rounded to prec/mode
@@ -754,6 +782,8 @@ func initLib() {
 		xp, yp := fGet(vc, st, a[1].P, "prec"), fGet(vc, st, a[2].P, "prec")
 		eff := vc.define("fprec", tIte(tEq(zp, mk("0", sortInt)), tIte(mk(app(">=", xp, yp), sortBool), xp, yp), zp))
 		exact := vc.define("fprod", mk(app("*", x, y), sortReal))
+		// (the product of two integers is an integer: the solvers do not derive this for a symbolic factor)
+		vc.assume(st, mk(fmt.Sprintf("(=> (and (is_int %s) (is_int %s)) (is_int %s))", x.S, y.S, exact.S), sortBool))
 		// the envelope needs literal precision: resolve through definitions when possible
 		precLit := eff
 		if d, ok := vc.defs[eff.S]; ok {
